@@ -333,3 +333,38 @@ def time_limits(h):
         h.check('info-is-doc-or-empty', '(r == "") == (not (%s))' % want if False else 'iff(r == "", not (%s))' % want, r=r, now=now, start=start, secs=secs)
     else:
         h.check('result-is-bool', 'r is True or r is False', r=r)
+
+
+@contract('C10/GradientNormTolerance', ['C10', 'C07'], T + 'GradientNormTolerance', native=False)
+def gradient_norm(h):
+    """satisfied exactly when the p-norm of the gradient AT THE SOLVER IT IS ASKED ABOUT is <= tolerance -- the solver's own
+    last recorded gradient, or (none recorded) the finite-difference gradient of its own cost at its own best solution.
+    The condition keeps no state: asked about solver A and then about solver B (same history length, as for the members
+    of an ensemble stepping in lockstep, which share the condition object) it judges B by B's gradient.
+    The norm (mystic.math.distance.Lnorm) and the finite-difference estimate are abstract functions here."""
+    if not h.is_sym():
+        h.unsupported('symbolic only')
+    tol = h.real('tolerance')
+    p = h.choice('norm', ['inf', 1, 2])
+    pv = h.inf() if p == 'inf' else p
+    NORM = h.fn('LNORM', ret='real')
+    FD = h.fn('FINITE_DIFFERENCE_GRADIENT', ret='same')
+    h.set_summaries({('mystic/math/distance.py', 'Lnorm'): lambda I, c, a, k: I.call(NORM, [a[0]], {}),
+                     ('mystic/_scipy060optimize.py', 'approx_fprime'): lambda I, c, a, k: I.call(FD, [a[0]], {})})
+    cond = h.call(h.get(T + 'GradientNormTolerance'), tol, pv)
+    info = h.choice('info', [False, True])
+    solvers = []
+    for tag in ('A', 'B'):
+        recorded = h.choice('solver_%s_records_gradients' % tag, [False, True])
+        best = h.vec('best_' + tag, 2)
+        fields = dict(bestSolution=best, _cost=h.tup(None, h.fn('COST_' + tag, ret='real'), None), energy_history=h.clist([3.0, 2.0]))
+        if recorded:
+            fields['gradient'] = h.clist([h.vec('old_gradient_' + tag, 2), h.vec('gradient_' + tag, 2)])
+        solvers.append((h.obj(None, **fields), recorded, best))
+    for tag, (s, recorded, best) in zip('AB', solvers):
+        r = h.call(cond, s, info)
+        g = h.ev('s.gradient[1]', s=s) if recorded else h.call(FD, best)
+        n = h.call(NORM, g)
+        h.check('solver-%s-judged-by-its-own-gradient' % tag, 'iff(truthy(r), n <= tol)', r=r, n=n, tol=tol)
+        if info:
+            h.check('info-is-doc-or-empty-for-%s' % tag, 'iff(r == "", not (n <= tol))', r=r, n=n, tol=tol)
